@@ -481,8 +481,8 @@ def run(ctx):
         "rule": "part 1: every subset of size <= %d of the %d-name universe (in Python's sort order) x every name of the "
                 "universe x {search_in_globals, search_in_struct_unions, search_in_enums, search_in_typenames, "
                 "search_sorted with a foreign item size}; part 2: every subset of size <= %d of the 63 identifiers + the "
-                "full universe + all 63 universe-minus-one sets, each as 3 out-of-line ABI modules, 8 lookups per "
-                "identifier of the universe; part 3: API-mode modules for every non-empty subset of size <= 2 of %s%s + "
+                "full universe%s, each as 3 out-of-line ABI modules, 8 lookups per "
+                "identifier of the universe; part 3: 2 API-mode modules for every non-empty subset of size <= 2 of %s%s + "
                 "the full universe.  non-trivial (counted over part 2 sets) = the set contains a prefix pair, a common "
                 "prefix followed by divergence, a case-only difference or an underscore/letter first-character pair" % (
                     KMAX_C, n, k_abi, "" if ctx.quick else " + all 63 universe-minus-one sets",
